@@ -114,14 +114,13 @@ Theorem json_err_stays :
 Proof. exact json_err_stays_proof. Qed.
 Print Assumptions json_err_stays.
 
-(* The parse-error clause of stickiness is FALSE of the code: after the expected-colon error on the
-   document  { 'a' 'b' : 1 }  (with double quotes) the next call returns the String unit 'b'
-   (Err() keeps the old error). *)
-Theorem json_parse_error_sticky_refuted :
+(* Next does not check p.err on entry: when the caller keeps calling after a parse error, Next goes on and
+   may return units again (here: StartObject, ErrorGrammar, String), while Err() keeps the stale error. *)
+Lemma json_continues_after_error :
   exists d tr, trace 3 (json_init d) = Some tr /\ grammars tr = [G_StartObject; G_Error; G_String] /\
                map (fun up => err_kind (snd up)) tr = [0; 2; 2].
-Proof. exact json_parse_error_sticky_refuted_proof. Qed.
-Print Assumptions json_parse_error_sticky_refuted.
+Proof. exact json_continues_after_error_proof. Qed.
+Print Assumptions json_continues_after_error.
 
 (* ---- json_rejects_listed: four lemmas over arbitrary contexts.  The context is any parser p whose cursor
    has consumed a, holds the lexeme tok, and faces the remaining input written in the hypothesis; lead is
@@ -163,24 +162,17 @@ Theorem json_rejects_missing_colon :
 Proof. exact rejects_missing_colon_proof. Qed.
 Print Assumptions json_rejects_missing_colon.
 
-(* in key position: anything that is not a string, EXCEPT an opening bracket (next theorem), is a parse
-   error at that byte ( } closes the object and , is a separator: not keys ) *)
-Theorem json_rejects_nonstring_key_partial :
+(* in key position: EVERY byte other than the quote and } (incl. { [ ] digits NUL and the end of input) is a
+   parse error at that byte instead of a unit.  A comma directly in key position is a separator (part of
+   lead); a second comma is rejected too (right disjunct).  (True since fix 1c3d0a4.) *)
+Theorem json_rejects_nonstring_key :
   forall p a tok lead s2 nd st,
     cur3 (pz p) a tok (lead ++ s2) -> lead_ok p lead nd -> pst p = S_ObjectKey :: st ->
-    is_ws (hd0 s2) = false ->
-    hd0 s2 <> 34 -> hd0 s2 <> 44 -> hd0 s2 <> 125 -> hd0 s2 <> 123 -> hd0 s2 <> 91 ->
+    is_ws (hd0 s2) = false -> hd0 s2 <> 34 -> hd0 s2 <> 125 ->
+    (hd0 s2 <> 44 \/ exists w w', ws w /\ ws w' /\ lead = w ++ 44 :: w') ->
     rejected_at p (len a + len tok + len lead).
 Proof. exact rejects_nonstring_key_proof. Qed.
-Print Assumptions json_rejects_nonstring_key_partial.
-
-(* the missing part is FALSE of the code: an array or object in key position is returned as units; the
-   invalid document  { [ 1 ] }  is parsed to the end of the input with Err() = io.EOF *)
-Theorem json_rejects_container_key_refuted :
-  exists d units final, ~ value d /\ drive (S (length d)) (json_init d) = Done units final /\
-    err_kind final = 1 /\ map sg units = [G_StartObject; G_StartArray; G_Number; G_EndArray; G_EndObject].
-Proof. exact nonstring_key_container_refuted_proof. Qed.
-Print Assumptions json_rejects_container_key_refuted.
+Print Assumptions json_rejects_nonstring_key.
 
 (* json_error_offset, second half: a byte that cannot start a token is reported at exactly its offset, in
    every context (any stack, any needComma) *)
@@ -192,10 +184,10 @@ Theorem json_error_at_illegal_byte :
 Proof. exact error_at_illegal_byte_proof. Qed.
 Print Assumptions json_error_at_illegal_byte.
 
-(* The parse-error clause of stickiness where it does hold: in the situations of the listed rejections
-   (stuck_at: mismatched or unopened closer, missing comma, stray comma, non-string key other than an opening
-   bracket, illegal byte) every further call returns ErrorGrammar again, with the error at the same offset and
-   the state stack unchanged.  Missing: the error after a missing colon (refuted above). *)
+(* Parse errors that ARE re-reported forever: in the situations of the listed rejections (stuck_at:
+   mismatched or unopened closer, missing comma, stray comma, non-string key, illegal byte) every further
+   call returns ErrorGrammar again, with the error at the same offset and the state stack unchanged.
+   Not covered: the error after a missing colon (json_continues_after_error). *)
 Theorem json_parse_error_sticky_partial :
   forall n p a tok s, cur3 (pz p) a tok s -> stuck_at (pst p) (pneed p) (prd p) s ->
     exists tr, trace n p = Some tr /\ length tr = n /\
